@@ -8,7 +8,8 @@ import proofs
 import gen_core as G
 from common import hx
 
-FILES = ["gen/Gen_core.v", "Model_core.v", "Proofs_core.v", "Proofs_total.v", "Inst_core.v", "Entry_core.v", "Extract_core.v"]
+FILES = ["gen/Gen_core.v", "Model_core.v", "Proofs_core.v", "Proofs_total.v", "Inst_core.v", "Entry_core.v", "Extract_core.v",
+         "Model_blocks.v", "Proofs_blocks.v", "Proofs_blocks_sum.v"]
 PROP = "Properties/C03.v"
 
 
